@@ -527,14 +527,16 @@ fn gen_raw(rng: &mut Rng, with_jumps: bool, allow_bad: bool) -> Vec<Sexp> {
 impl Prop for C13 {
     fn id(&self) -> &'static str { "C13" }
     fn relation(&self) -> &'static str {
-        "compile: RawInstr.time of the marker instructions after the real ANM (TH12) compile == Lean `Time.instrTimes` (visitor model); visit: (kind, time) recorded by passes::semantics::time_and_difficulty::run for every statement of a parsed structured block == Lean `Time.run`; raise: label / time-label / instruction statement sequence emitted by the real decompiler (blocks off) for a stored script == Lean `Time.raise` (label names compared as r/n flag + instruction index)"
+        "compile: RawInstr.time of the marker instructions after the real ANM (TH12) compile == Lean `Time.instrTimes` (visitor model); visit: (kind, time) recorded by passes::semantics::time_and_difficulty::run for every statement of a parsed structured block == Lean `Time.run`; raise: label / time-label / instruction statement sequence emitted by the real decompiler (blocks off) for a stored script == Lean `Time.raise` (label names compared as r/n flag + instruction index); xcompile: (time, difficulty mask, time-valued argument) of every instruction that comes from an instruction statement / interrupt label / explicit goto / timeof use after the real compile of ANM TH12, old ECL TH07 and MSG TH08 sources == Lean `Time.X.compile` (delta expressions evaluated by the C11 model `simplify`); xvisit: (kind, time, mask) recorded by compute_diff_label_masks + time_and_difficulty::run for every statement incl. all blocks of if/else chains and nested function items == Lean `Time.X.run`; xraise: the statements the real decompiler emits for stored ANM TH12 / ECL TH07 / MSG TH08 scripts with interrupt labels, difficulty masks and jumps == Lean `Time.X.raise`"
     }
     fn rule(&self) -> &'static str {
-        "compile: statement lists of `N:` / `+N:` (delta printed as literal, unsigned wrap-around literal, negated literal, sum, difference, product, named const) / instructions / offset labels / nested blocks (free, loop, times, if/else, while, do-while; depth<=3) with boundary times (0, +-1, i16/u16/i32 limits) so that deltas wrap; plus a malformed stream with a non-constant delta.  raise: stored time sequences (monotone with repeats, starting at -1, decreasing, arbitrary, wild i32, zero crossings) with and without jumps (destination incl. end of script, time argument = previous/destination/other/absent, bad offsets).  non-trivial = at least two instructions; distinct by case text"
+        "compile: statement lists of `N:` / `+N:` (delta printed as literal, unsigned wrap-around literal, negated literal, sum, difference, product, named const) / instructions / offset labels / nested blocks (free, loop, times, if/else, while, do-while; depth<=3) with boundary times (0, +-1, i16/u16/i32 limits) so that deltas wrap; plus a malformed stream with a non-constant delta.  raise: stored time sequences (monotone with repeats, starting at -1, decreasing, arbitrary, wild i32, zero crossings) with and without jumps (destination incl. end of script, time argument = previous/destination/other/absent, bad offsets).  second round (x* streams), per language ANM TH12 / ECL TH07 / MSG TH08: `interrupt[n]:` between instructions and under a difficulty tag, `{\"EN\"}:`-tagged instructions / blocks / chains (ECL), offset labels at the start / end of blocks and before / after time labels with `goto L @ t`, `goto L`, `timeof(L)` referring to them, if / else-if / else chains (runtime and constant conditions) with time labels in every branch, nested function items, deltas that are constant expressions over 0-3 `const int` definitions (19 integer operators, unary operators, ternaries, chains of consts), undefined / duplicate labels; stored scripts with interrupt instructions, per-instruction difficulty masks, relative (ECL) and absolute (ANM) jump offsets, time argument first (ECL) or second (ANM), i16-boundary times (MSG).  non-trivial = at least two instructions; distinct by case text"
     }
     fn theorems(&self) -> &'static [&'static str] {
         &["TruthModel.C13.visitor_eq_spec", "TruthModel.C13.emit_reproduces", "TruthModel.C13.times_emitAll", "TruthModel.C13.recompile_emitAll",
-          "TruthModel.C13.raise_times", "TruthModel.C13.rlabel_time", "TruthModel.C13.raise_no_panic", "TruthModel.C13.label_always_placed"]
+          "TruthModel.C13.raise_times", "TruthModel.C13.rlabel_time", "TruthModel.C13.raise_no_panic", "TruthModel.C13.label_always_placed",
+          "TruthModel.C13.Ext.xvisitor_eq_spec", "TruthModel.C13.Ext.xcompile_spec", "TruthModel.C13.Ext.label_time_position", "TruthModel.C13.Ext.delta_is_const_value",
+          "TruthModel.C13.Ext.xraise_times", "TruthModel.C13.Ext.xrlabel_time", "TruthModel.C13.Ext.goto_reproduces_arg"]
     }
 
     fn gen(&self, tier: Tier, rng: &mut Rng) -> Vec<Case> {
@@ -620,11 +622,15 @@ impl Prop for C13 {
             if g.format == Format::Mission { continue; }
             out.push(Case::search(Sexp::app("rtfile", vec![Sexp::atom(g.format.name()), Sexp::atom(format!("{}", g.game)), Sexp::list(g.maps.iter().map(|m| Sexp::str(m.clone())).collect()), Sexp::str(g.text)])).tag(format!("rtfile-{}", g.format.name())));
         }
+        // second round: interrupt labels, difficulty tags, goto / timeof, else branches, nested functions,
+        // const-expression deltas; through ANM TH12, old ECL TH07 and MSG TH08 (appended: the streams above are unchanged)
+        super::c13x::gen(tier, rng, &mut out);
         out
     }
 
     fn eval(&self, case: &Sexp) -> Sexp {
         let a = case.args();
+        if let Some(r) = super::c13x::eval(case) { return r; }
         match case.head() {
             Some("rtfile") => rtfile_case(a),
             Some("compile") => compile_case(a),
@@ -642,6 +648,7 @@ impl Prop for C13 {
         match case.head() {
             Some("compile") => vec![Case::search(Sexp::app("rt", case.args().to_vec()))],
             Some("raise") => vec![Case::search(Sexp::app("rtflat", case.args().to_vec())), Case::search(Sexp::app("rtraw", case.args().to_vec()))],
+            Some("xraise") => vec![Case::search(Sexp::app("xrt", case.args().to_vec()))],
             _ => vec![],
         }
     }
